@@ -72,11 +72,24 @@ def gen(rng, focus=None):
             extra = ""
             if rng.random() < 0.4:
                 extra = f" will=w/{cid},{rng.choice([0, 1])},0,0,W{n['conn']}"
+            if v == 5 and rng.random() < 0.35:
+                # the Authentication Method property is PRESENT with a zero-length value: that is enhanced authentication
+                # (AuthMethod != nil). Exactly one of the two auth hooks must run, and its verdict decides.
+                mode = rng.choice(["both", "both", "enh", "basic", "none"])
+                if mode in ("both", "basic"):
+                    ops.append(f"hook OnBasicAuth {who()} code={rng.choice(CONNECT_CODES)}")
+                if mode in ("both", "enh"):
+                    ops.append(f"hook OnEnhancedAuth {who()} code={rng.choice(CONNECT_CODES)}")
+                ops.append(f"conn {cn} {cid} v=5 am={extra}"); log(True)
+                ops.append("hook clear")
+                continue
             if r < 0.55:
                 kv = f"code={rng.choice(CONNECT_CODES)}" if rng.random() < 0.8 else "plain=1"
                 ops.append(f"hook OnBasicAuth {who()} {kv}")
+                if v == 5 and rng.random() < 0.3:      # a verdict of the hook that must NOT run changes nothing
+                    ops.append(f"hook OnEnhancedAuth {who()} continue=1")
                 ops.append(f"conn {cn} {cid} v={v}{extra}"); log(True)
-                ops.append("hook OnBasicAuth clear")
+                ops.append("hook clear")
                 if rng.random() < 0.5:      # the same client id is accepted afterwards: nothing was left behind
                     cn2 = conn()
                     ops.append(f"conn {cn2} {cid} v={v} cs=0"); log(True)
@@ -98,14 +111,22 @@ def gen(rng, focus=None):
             ops.append(f"conn {cn} {cid} v=5 am=M"); log(True)
             ops.append("hook OnEnhancedAuth clear")
             return
-        if r < 0.4:
-            # Continue = true: the broker answers AUTH(0x18) and the session must not exist yet. (The exchange cannot be
-            # completed on this broker: readLoop waits for `client.connected` after handing over the CONNECT and never
-            # reads the client's AUTH, the connect timer ends the connection. The script therefore stops here.)
+        if r < 0.65:
+            # challenge / response: Continue = true, then the OnAuth callback decides each further AUTH packet
             ops.append(f"hook OnEnhancedAuth {who()} continue=1")
+            if rng.random() < 0.3:
+                ops.append(f"hook OnBasicAuth {who()} code={rng.choice(CONNECT_CODES)}")     # must not run
             ops.append(f"conn {cn} {cid} v=5 am=M"); log(True)
-            ops.append("hook OnEnhancedAuth clear")
-            return
+            for _ in range(rng.choice([0, 0, 1, 2])):
+                ops.append("hook OnAuth base continue=1")
+                ops.append(f"auth {cn} code=24 am=M ad=x"); log(True)
+            if rng.random() < 0.4:
+                ops.append(f"hook OnAuth base code={rng.choice(CONNECT_CODES)}" if rng.random() < 0.8 else "hook OnAuth base nilresp=1")
+                ops.append(f"auth {cn} code=24 am=M ad=x"); log(True)
+                ops.append("hook clear")
+                return
+            ops.append("hook clear")
+            ops.append(f"auth {cn} code=24 am=M ad=x"); log(True)
         else:
             ops.append(f"conn {cn} {cid} v=5 am=M"); log(True)
         # re-authentication on the established connection (the broker compares the method with the packet's
@@ -221,7 +242,8 @@ def gen(rng, focus=None):
         wt, wtag = topic("w"), f"W{n['conn']}"
         delay = rng.choice([0, 0, 0, 1]) if v == 5 else 0
         se = f" se={rng.choice([0, 30])}" if v == 5 else ""
-        ops.append(f"conn {cn} {cid} v={v}{se} will={wt},{rng.choice([0, 1, 2])},0,{delay},{wtag}"); log(True)
+        wret = rng.choice([0, 1, 1])
+        ops.append(f"conn {cn} {cid} v={v}{se} will={wt},{rng.choice([0, 1, 2])},{wret},{delay},{wtag}"); log(True)
         r = rng.random()
         kv = None
         if r < 0.3:
@@ -231,8 +253,9 @@ def gen(rng, focus=None):
             if rng.random() < 0.7: parts.append(f"t={topic('z')}")
             if rng.random() < 0.7: parts.append(f"tag={tag()}")
             if rng.random() < 0.3: parts.append(f"q={rng.choice([0, 1, 2])}")
+            if rng.random() < 0.4: parts.append(f"r={rng.choice([0, 0, 1])}")
             if not parts: parts.append(f"tag={tag()}")
-            if rng.random() < 0.3: parts.append("inplace=1")
+            if rng.random() < 0.25: parts.append("inplace=1")      # edit the message in place instead of replacing it
             kv = " ".join(parts)
         if kv:
             ops.append(f"hook OnWillPublish {who()} {kv}")
@@ -781,9 +804,15 @@ def check_will(ops, out):
     base = kvs(ops[0].split()[1:]).get("base", "0") == "1"
     pending = {}     # cid -> will awaiting its delay
     clean = False
+    snap, fresh = None, False      # the last snapshot, and whether it was taken right before the current request
     for i, (op, line) in enumerate(zip(ops, out)):
         f = op.split()
         was_clean = clean
+        was_fresh = fresh
+        if f[0] == "api" and f[1] == "snapshot":
+            snap, fresh = snap_fields(line), True
+        elif f[0] not in ("hook", "hooklog", "api"):
+            fresh = False
         if f[0] == "hooklog":
             clean = True
         elif f[0] not in ("hook", "api"):
@@ -814,7 +843,7 @@ def check_will(ops, out):
                 online[f[1]] = f[2]; ver[f[1]] = int(kv.get("v", 4))
                 if "will" in kv:
                     x = kv["will"].split(",")
-                    wills[f[2]] = dict(t=x[0], q=int(x[1]), delay=int(x[3]) if ver[f[1]] == 5 else 0, tag=x[4],
+                    wills[f[2]] = dict(t=x[0], q=int(x[1]), retain=x[2] == "1", delay=int(x[3]) if ver[f[1]] == 5 else 0, tag=x[4],
                                        se=int(kv.get("se", 0)) if ver[f[1]] == 5 else 0)
                 else:
                     wills.pop(f[2], None)
@@ -846,6 +875,22 @@ def check_will(ops, out):
             if n1 != len(fired) or n2 != w2:
                 return (f"`{op}`: {len(fired)} will message(s) are due ({[w['tag'] for w in fired]}): OnWillPublish fired {n1} time(s), "
                         f"OnWillPublished {n2} time(s), expected {len(fired)} and {w2}")
+        # the retained store after the wills of this request: what OnWillPublish left, nothing else
+        nxt = next((j for j in (i + 1, i + 2) if j < len(ops) and ops[j] == "api snapshot"), None)
+        if fired and was_fresh and snap is not None and nxt is not None:
+            before, after = setof(snap.get("ret", "~")), setof(snap_fields(out[nxt]).get("ret", "~"))
+            expect = set(before)
+            for wl in fired:
+                ntag = a.get("tag", wl["tag"]); nt = a.get("t", wl["t"]); nq = int(a.get("q", wl["q"]))
+                nret = (a["r"] == "1") if "r" in a else wl["retain"]
+                if a.get("drop") == "1" or not nret:
+                    continue
+                expect = {x for x in expect if not x.startswith(nt + ":")}
+                if ntag != "~":
+                    expect.add(f"{nt}:{nq}:{ntag}")
+            if after != expect:
+                return (f"`{op}`: will(s) {[w['tag'] for w in fired]} due with OnWillPublish verdict {a or 'keep'}: the retained store must be "
+                        f"{sorted(expect) or 'empty'} (the message as the hook left it, RETAIN included) but is {sorted(after) or 'empty'}")
         for wl in fired:
             ntag = a.get("tag", wl["tag"]); nt = a.get("t", wl["t"]); nq = int(a.get("q", wl["q"]))
             mine = [pf for pf in got if pf["tag"] in (wl["tag"], ntag)]
